@@ -155,8 +155,6 @@ fn builtin(r: &mut Rng) -> GE {
         _ => id(["PEEK", "POP", "DROP", "PEEK_ALL", "POP_ALL"][r.below(5) as usize]),
     }
 }
-/// a small expression, one time in six a built-in (the operands the rewrites compare, merge, resolve or move)
-fn operand(r: &mut Rng, i: usize, n: usize, c: &GenCfg) -> GE { if r.chance(1, 6) { builtin(r) } else { small(r, i, n, c) } }
 /// random binary tree over the leaves with operator `op`, leaning left with probability lean/4 (lean = 9: right-nested)
 fn tree(r: &mut Rng, mut leaves: Vec<GE>, op: fn(GE, GE) -> GE, lean: u64) -> GE {
     if leaves.len() == 1 { return leaves.pop().unwrap(); }
@@ -195,18 +193,16 @@ fn shaped(r: &mut Rng, kind: u32, x: bool, wild: bool, huge_ok: bool) -> Vec<GRu
     let mut rules: Vec<GRule> = (0..n).map(|i| GRule { name: format!("r{}", i), ty: any_ty(r), e: gen_expr(r, 2, i, n, &c) }).collect();
     let e0 = match kind {
         0 => { let k = 3 + r.below(3) as usize; let is_seq = r.chance(1, 2); let op: fn(GE, GE) -> GE = if is_seq { seq } else { cho };
-               let leaves = (0..k).map(|_| if r.chance(1, 4) { let m = 2 + r.below(2) as usize; let l2 = (0..m).map(|_| operand(r, 0, n, &c)).collect(); tree(r, l2, if is_seq { cho } else { seq }, 3) } else { operand(r, 0, n, &c) }).collect();
+               let leaves = (0..k).map(|_| if r.chance(1, 4) { let m = 2 + r.below(2) as usize; let l2 = (0..m).map(|_| small(r, 0, n, &c)).collect(); tree(r, l2, if is_seq { cho } else { seq }, 3) } else { small(r, 0, n, &c) }).collect();
                tree(r, leaves, op, 3) }
         1 => {
             rules[0].ty = mostly(r, Ty::Atomic);
             // helper rules: string choices (inlinable), or not
-            // ... or a built-in on its own / next to a string (`eol = _{ NEWLINE }`, `sep = { "," | NEWLINE }`)
-            rules[2].e = match r.below(9) { 0 | 1 => s(&strlit(r)), 2 | 3 => cho(s(&strlit(r)), s(&strlit(r))), 4 => seq(s("x"), s("y")), 5 => GE::Range('x', 'y'),
-                6 => builtin(r), 7 => cho(s(&strlit(r)), builtin(r)), _ => cho(builtin(r), s(&strlit(r))) };
+            rules[2].e = match r.below(6) { 0 | 1 => s(&strlit(r)), 2 | 3 => cho(s(&strlit(r)), s(&strlit(r))), 4 => seq(s("x"), s("y")), _ => GE::Range('x', 'y') };
             rules[1].e = match r.below(5) { 0 => s(&strlit(r)), 1 => cho(s(&strlit(r)), id("r2")), 2 => cho(id("r2"), s(&strlit(r))), 3 => id("r2"), _ => cho(s(&strlit(r)), cho(s(&strlit(r)), s(&strlit(r)))) };
             let k = 1 + r.below(4) as usize;
-            let alts: Vec<GE> = (0..k).map(|_| match r.weighted(&[8, 3, 3, 1, 4, if wild { 1 } else { 0 }]) {
-                0 => s(&strlit(r)), 1 => id("r1"), 2 => id("r2"), 3 => GE::Ins("x".into()), 4 => builtin(r), _ => id("undefined_rule") }).collect();
+            let alts: Vec<GE> = (0..k).map(|_| match r.weighted(&[8, 3, 2, 1, 1, if wild { 1 } else { 0 }]) {
+                0 => s(&strlit(r)), 1 => id("r1"), 2 => id("r2"), 3 => GE::Ins("x".into()), 4 => id(["ANY", "ASCII_DIGIT", "SOI"][r.below(3) as usize]), _ => id("undefined_rule") }).collect();
             let lean = [9, 9, 9, 9, 9, 0, 2, 4][r.below(8) as usize];
             let alt = tree(r, alts, cho, lean);
             let core = match r.weighted(&[12, 1, 1, 1, 1]) {
@@ -214,7 +210,7 @@ fn shaped(r: &mut Rng, kind: u32, x: bool, wild: bool, huge_ok: bool) -> Vec<GRu
                 2 => GE::Rep(bx(seq(GE::Neg(bx(alt)), s("x")))), 3 => GE::Rep(bx(seq(GE::Pos(bx(alt)), id("ANY")))), _ => GE::Rep(bx(seq(GE::Neg(bx(alt)), GE::Range('x', 'y')))) };
             match r.below(4) { 0 => core, 1 => seq(core, s(&strlit(r))), 2 => seq(s(&strlit(r)), seq(core, s(&strlit(r)))), _ => ctx(r, core, 0, n, &c) }
         }
-        2 => { let inner = if r.chance(1, 3) { GE::RepMM(bx(small(r, 0, n, &c)), r.below(3) as u32, 1 + r.below(3) as u32) } else { operand(r, 0, n, &c) };
+        2 => { let inner = if r.chance(1, 3) { GE::RepMM(bx(small(r, 0, n, &c)), r.below(3) as u32, 1 + r.below(3) as u32) } else { small(r, 0, n, &c) };
                // u32::MAX makes `num + 1` overflow at once; u32::MAX - 1 does so only for e{n,} (`min + 2`), elsewhere it would build 2^32 clones
                // (only when the driver found the unroller's `num + 1` arithmetic in the tree: with the inclusive ranges of the repaired
                //  unroller such a count means 2^32 clones)
@@ -229,9 +225,9 @@ fn shaped(r: &mut Rng, kind: u32, x: bool, wild: bool, huge_ok: bool) -> Vec<GRu
                // literals of one kind with an odd one out, or both kinds mixed freely (a case-sensitive literal next to a case-insensitive one)
                let mode = r.below(3);
                let leaves = (0..k).map(|_| { let ins = match mode { 0 => r.chance(2, 13), 1 => r.chance(11, 13), _ => r.chance(1, 2) };
-                   if r.chance(1, 13) { small(r, 0, n, &c) } else if r.chance(1, 12) { builtin(r) } else if ins { GE::Ins(["X", "y", "xY", "É", "", "x", "Yx"][r.below(7) as usize].into()) } else { s(&strlit(r)) } }).collect();
+                   if r.chance(1, 13) { small(r, 0, n, &c) } else if ins { GE::Ins(["X", "y", "xY", "É", "", "x", "Yx"][r.below(7) as usize].into()) } else { s(&strlit(r)) } }).collect();
                let lean = [0, 2, 4][r.below(3) as usize]; let t = tree(r, leaves, seq, lean); ctx(r, t, 0, n, &c) }
-        4 => { let a = operand(r, 0, n, &c); let a2 = if r.chance(3, 4) { a.clone() } else { operand(r, 0, n, &c) }; let b = operand(r, 0, n, &c); let d = small(r, 0, n, &c);
+        4 => { let a = small(r, 0, n, &c); let a2 = if r.chance(3, 4) { a.clone() } else { small(r, 0, n, &c) }; let b = small(r, 0, n, &c); let d = small(r, 0, n, &c);
                if r.chance(1, 2) { rules[0].ty = [Ty::Atomic, Ty::Compound][r.below(2) as usize]; }
                // two expressions of which the first matches a prefix of what the second matches (or the other way round): ordered choice
                // commits to the first that matches, so such heads / tails tell a sound factoring from an unsound one
@@ -244,7 +240,7 @@ fn shaped(r: &mut Rng, kind: u32, x: bool, wild: bool, huge_ok: bool) -> Vec<GRu
                    3 => cho(seq(a.clone(), b), cho(seq(a2, d), a)), 4 => cho(cho(seq(a.clone(), b), seq(a2, d)), a),
                    5 => cho(seq(h1, t.clone()), seq(h2, t)), 6 => cho(seq(h1, t.clone()), cho(seq(h2, t), d)), _ => cho(seq(a, h1), seq(a2, h2)) };
                ctx(r, e, 0, n, &c) }
-        5 => { let a = operand(r, 0, n, &c); let a2 = if r.chance(4, 5) { a.clone() } else { operand(r, 0, n, &c) }; let b = operand(r, 0, n, &c);
+        5 => { let a = small(r, 0, n, &c); let a2 = if r.chance(4, 5) { a.clone() } else { small(r, 0, n, &c) }; let b = small(r, 0, n, &c);
                // the separated-list shape on its own, or followed by a tail (what the rules of real grammars look like: a trailing separator,
                // a terminator that overlaps the separator, the end of input), nested to the left (as written) or to the right (as rotated)
                let tail = match r.below(10) { 0 => Some(GE::Opt(bx(b.clone()))), 1 => Some(seq(GE::Opt(bx(b.clone())), id("EOI"))), 2 => Some(id("EOI")), 3 => Some(small(r, 0, n, &c)),
@@ -264,6 +260,44 @@ fn shaped(r: &mut Rng, kind: u32, x: bool, wild: bool, huge_ok: bool) -> Vec<GRu
         3 => rules.push(GRule { name: "COMMENT".into(), ty: Ty::Silent, e: seq(s("y"), s(" ")) }), _ => {} } }
     rules
 }
+
+/// Built-ins in the positions a pass inspects or resolves, as a second step on a shaped rule set (with a random stream of its own, so that
+/// the shapes themselves stay what they are): in about a third of the rule sets of the rewriting kinds one or two operands of the entry
+/// rule - for the skip shape the alternatives of the stop set - are replaced by a built-in, together with every structurally equal operand
+/// (the rewrites look for equal heads / elements); for the skip shape a helper rule may also become a built-in on its own or next to a
+/// string (`eol = _{ NEWLINE }`, `sep = { "," | NEWLINE }`), so that the stop set reaches the built-in through a rule of any type.
+fn with_builtins(mut g: Vec<GRule>, kind: u32, a: &mut Rng) -> Vec<GRule> {
+    if kind > 5 || g.is_empty() { return g; }
+    if !a.chance(1, if kind == 1 { 2 } else { 3 }) { return g; }
+    fn is_operand(e: &GE) -> bool { match e { GE::Str(_) | GE::Ins(_) | GE::Range(..) => true, GE::Id(_) => true, _ => false } }
+    /// preorder indices of the operands; for the skip shape only those below a negative predicate
+    fn sites(e: &GE, under_neg: bool, need_neg: bool, i: &mut usize, out: &mut Vec<usize>) {
+        let me = *i; *i += 1;
+        if children(e).is_empty() { if is_operand(e) && (under_neg || !need_neg) { out.push(me); } return; }
+        let neg = under_neg || matches!(e, GE::Neg(_));
+        for c in children(e) { sites(c, neg, need_neg, i, out); }
+    }
+    for _ in 0..1 + a.below(2) {
+        if kind == 1 && g.len() >= 3 && a.chance(1, 3) {
+            let ri = 1 + a.below(2) as usize;
+            let lit = s(["x", "y", "xy", ","][a.below(4) as usize]);
+            g[ri].e = match a.below(3) { 0 => builtin(a), 1 => cho(lit, builtin(a)), _ => cho(builtin(a), lit) };
+            continue;
+        }
+        let (mut i, mut out) = (0, vec![]);
+        sites(&g[0].e, false, kind == 1, &mut i, &mut out);
+        if out.is_empty() { continue; }
+        let k = out[a.below(out.len() as u64) as usize];
+        let old = nth(&g[0].e, k);
+        let new = builtin(a);
+        fn subst(e: &GE, old: &GE, new: &GE) -> GE { if e == old { return new.clone(); } let cs: Vec<GE> = children(e).into_iter().map(|c| subst(c, old, new)).collect(); with_children(e, cs) }
+        // every equal operand (an ANY behind a stop set stays: it is what makes the shape a skip-until)
+        if old == id("ANY") && kind == 1 { continue; }
+        g[0].e = subst(&g[0].e, &old, &new);
+    }
+    g
+}
+fn aux_rng(seed: u64, k: u64) -> Rng { Rng::new(seed.wrapping_mul(0x9E37_79B9_7F4A_7C15).wrapping_add(k.wrapping_mul(0xD1B5_4A32_D192_ED03)).wrapping_add(77)) }
 
 // ------------------------------------------------------------------------------------------------
 // property oracle: the real VM before and after a pass
@@ -606,10 +640,10 @@ fn mutate(g0: &[GRule], r: &mut Rng) -> Vec<GRule> {
     }
     g
 }
-fn sem_grammar(rng: &mut Rng, k: u64, x: bool) -> (Vec<GRule>, u32) {
+fn sem_grammar(rng: &mut Rng, k: u64, x: bool, seed: u64) -> (Vec<GRule>, u32) {
     let kind = (k % 8) as u32;
     let g = if kind == 7 { let c = GenCfg { stack: rng.chance(1, 2), extras: x, counts: rng.chance(1, 2), builtins: rng.chance(1, 4) }; gen_grammar(rng, &c) }
-            else { shaped(rng, kind, x, false, false) };
+            else { with_builtins(shaped(rng, kind, x, false, false), kind, &mut aux_rng(seed, k)) };
     (g, kind)
 }
 /// the rule set with implicit skipping switched on in the ways it is not yet: + WHITESPACE = _{ " " }, + COMMENT = _{ "y" ~ " " }, + both
@@ -655,7 +689,7 @@ fn search(w: &mut Out, st: &mut Stats, file: &str, seed: u64, nvar: u64, nrand: 
     let mut random = 0u64;
     for k in 0..nrand {
         if hits_given + hits_trivia + hits_variant + hits_random >= ENOUGH { break; }
-        let (g, _) = sem_grammar(&mut rng, k, x);
+        let (g, _) = sem_grammar(&mut rng, k, x, seed);
         random += 1;
         if semantic(w, st, &g, x, maxlen, "search", 0, false, Depth::Mid, &[]) { hits_random += 1; }
     }
@@ -746,27 +780,27 @@ fn main() {
     let mut st = Stats { evals: 0, fired: [0; 9], seen: HashSet::new(), distinct_fired: 0, panics: 0, vm_runs: 0, vm_diff_known: 0, contracts: 0, inputs: 0 };
     match mode.as_str() {
         "struct" => {
-            let count = arg_u64(2, 500); let mut rng = Rng::new(arg_u64(3, 0)); let huge_ok = arg(4) == "huge";
+            let count = arg_u64(2, 500); let seed = arg_u64(3, 0); let mut rng = Rng::new(seed); let huge_ok = arg(4) == "huge";
             for k in 0..count {
                 let kind = (k % 8) as u32;
                 let g = if kind == 7 { let c = GenCfg { stack: rng.chance(1, 2), extras: x, counts: rng.chance(1, 2), builtins: rng.chance(1, 4) }; gen_grammar(&mut rng, &c) }
-                        else { let wild = rng.chance(1, 4); shaped(&mut rng, kind, x, wild, huge_ok) };
+                        else { let wild = rng.chance(1, 4); with_builtins(shaped(&mut rng, kind, x, wild, huge_ok), kind, &mut aux_rng(seed, k)) };
                 structural(&mut w, &mut st, &g, x);
             }
         }
         "dump" => {   // the generated rule sets only (debugging aid)
-            let count = arg_u64(2, 10); let mut rng = Rng::new(arg_u64(3, 0));
+            let count = arg_u64(2, 10); let seed = arg_u64(3, 0); let mut rng = Rng::new(seed);
             for k in 0..count {
                 let kind = (k % 8) as u32;
                 let g = if kind == 7 { let c = GenCfg { stack: rng.chance(1, 2), extras: x, counts: rng.chance(1, 2), builtins: rng.chance(1, 4) }; gen_grammar(&mut rng, &c) }
-                        else { let wild = rng.chance(1, 4); shaped(&mut rng, kind, x, wild, arg(4) == "huge") };
+                        else { let wild = rng.chance(1, 4); with_builtins(shaped(&mut rng, kind, x, wild, arg(4) == "huge"), kind, &mut aux_rng(seed, k)) };
                 writeln!(w, "{}\t{}", k, sexp_grammar(&g)).unwrap();
             }
         }
         "sem" => {
-            let count = arg_u64(2, 100); let mut rng = Rng::new(arg_u64(3, 0)); let maxlen = arg_u64(4, 5) as usize;
+            let count = arg_u64(2, 100); let seed = arg_u64(3, 0); let mut rng = Rng::new(seed); let maxlen = arg_u64(4, 5) as usize;
             for k in 0..count {
-                let (g, kind) = sem_grammar(&mut rng, k, x);
+                let (g, kind) = sem_grammar(&mut rng, k, x, seed);
                 let stream = ["rotate", "skip", "unroll", "concat", "factor", "list", "restore", "random"][kind as usize];
                 semantic(&mut w, &mut st, &g, x, maxlen, stream, k, kind == 2 || kind == 6 || k % 5 == 0, Depth::Base, &[]);
             }
